@@ -1,13 +1,13 @@
-SPECIFICATION Spec
+SPECIFICATION FairSpec
 CONSTANTS
  Tasks <- T2
  Deps <- D2
- Faulty <- NoFaulty
+ Faulty <- Fa
  Roots <- R2
  Mach <- M3
  MaxKills = 1
  MaxDiscards = 1
  MaxLost = 2
  Variant = "atomic"
-INVARIANTS TypeOK NoOrphanRunning NoOrphanWaiting OkIsOwned OwnedIsStored
+PROPERTIES Terminates
 CHECK_DEADLOCK FALSE
